@@ -2,7 +2,7 @@
 import json, os, re, sys, time, traceback
 from core import *
 
-EVID = os.path.join(VERIF, 'evidence')
+EVID = os.environ.get('VERIF_EVIDENCE_DIR') or os.path.join(VERIF, 'evidence')
 KNOWN = os.path.join(VERIF, 'known_findings.json')
 
 class Ob:
